@@ -50,6 +50,13 @@ def make_probe(idx, log):
             if missing:
                 log.add(idx, 'primary_key_undeclared', 'resource %r: primaryKey %r names %r which is not a declared field %r'
                         % (r.get('name'), pk, missing, fnames))
+            for fk in sch.get('foreignKeys') or []:
+                fkf = fk.get('fields') or []
+                fkf = [fkf] if isinstance(fkf, str) else list(fkf)
+                gone = [k for k in fkf if k not in fnames]
+                if gone:
+                    log.add(idx, 'foreign_key_undeclared', 'resource %r: foreignKeys fields %r name %r which is not a declared '
+                            'field %r' % (r.get('name'), fkf, gone, fnames))
             if len(set(fnames)) != len(fnames):
                 log.add(idx, 'duplicate_field_names', 'resource %r: field names not unique: %r' % (r.get('name'), fnames))
         yield package.pkg
